@@ -26,13 +26,16 @@ func init() {
 			"R5 the set-value point takes type/value/text/target from the action's fields and the sender stamps the rule id on points for foreign nodes; " +
 			"R6 a schedule condition takes the result of the schedule predicate applied to the trigger point's time, only for trigger points; " +
 			"R7 the stored state a point's result is compared with is the current one: no path leads from a store into a condition's state to a comparison with a copy of that condition taken before the store; " +
-			"R8 the subscription on up.<rule parent>.* hands {node id chunk, decoded points} unchanged to the evaluator, and no decision that drops a batch on the way depends on a snapshot of the configuration taken before the subscription. " +
-			"Not decided: which point of a history is the latest matching one, tick timing, delivery of points by the bus, NaN operands.",
+			"R8 the subscription on up.<rule parent>.* hands {node id chunk, decoded points} unchanged to the evaluator, and no decision that drops a batch on the way depends on a snapshot of the configuration taken before the subscription; " +
+			"R9 every point of the batch is shown to every condition: the loops that enclose the condition-state store range over the whole condition list / the whole batch and no path leaves them before they are exhausted (one abstract pass, any guard); " +
+			"R10 the action runner and the inactive-marker visit every element of the list they are handed: a path leaves the loop over the action list before the end only after a send has failed, never because a lookup failed, an input is missing or a value of one action says so. " +
+			"Not decided: which point of a history is the latest matching one beyond R7/R9, tick timing, delivery of points by the bus, NaN operands, process aborts (log.Fatal) inside an action.",
 		Assumptions: []string{
 			"struct tags `point:\"…\"`/`child:\"…\"` are the configuration protocol between UI and rule client (they identify the condition, rule and action fields)",
 			"float comparison is evaluated over the three orderings of two numbers (NaN excluded: the store refuses NaN points, C05)",
 			"strings.Contains has its documented meaning",
 			"conditions not expressed through the recognised comparison atoms make the instance undecided (CHECKER-ERROR), never accepted",
+			"sends of the rule client (a method of the bus connection returning only an error, a module function handing point(s)/bytes to the connection, the encoding of such a payload) succeed; a path on which one fails may abandon the action list (R10)",
 		},
 		Run: runC13,
 	})
@@ -48,6 +51,8 @@ func runC13(c *kit.Ctx) {
 	r6 := c.Rule("R6", "schedule condition takes the schedule predicate at the trigger time", 2)
 	r7 := c.Rule("R7", "a point's result is compared with the current stored state of its condition", 1)
 	r8 := c.Rule("R8", "every batch received from the parent's subtree reaches the evaluator", 2)
+	r9 := c.Rule("R9", "every point of the batch is shown to every condition", 3)
+	r10 := c.Rule("R10", "an action list is visited to the end unless a send fails", 2)
 	if len(m.evals) == 0 {
 		c.Fatalf("no function stores into the active field of a %s list element", m.cond.Obj().Name())
 	}
@@ -60,8 +65,10 @@ func runC13(c *kit.Ctx) {
 		c13R6(c, m, e, r6)
 		c13R7(c, m, e, r7)
 		c13R8(c, m, e, r8)
+		c13R9(c, m, e, r9)
 	}
 	c13R5(c, m, r5)
+	c13R10(c, m, r10)
 }
 
 // ---------------------------------------------------------------------------
